@@ -1,0 +1,15 @@
+//go:build verif
+
+package client
+
+// VerifQueueLen returns the number of received messages waiting in the queue (verification harness only).
+func (r *ReceivedMessageReader[C]) VerifQueueLen() int {
+	return len(r.queue)
+}
+
+// VerifReading reports the "loop is reading from the queue" flag of the current loop.
+func (r *ReceivedMessageReader[C]) VerifReading() bool {
+	r.private.mutex.Lock()
+	defer r.private.mutex.Unlock()
+	return r.private.readingMessages.Load()
+}
